@@ -1,6 +1,30 @@
-"""C06: a Tree's state depends only on where it is, not on how it got there."""
+"""C06: a Tree's state depends only on where it is, not on how it got there (C cursor by llsym; the Python wrappers
+Tree.seek_index / seek / next / prev / TreeIterator by CrossHair)."""
+import os
+import sys
+
+HERE = os.path.dirname(os.path.dirname(os.path.abspath(__file__)))
+sys.path.insert(0, os.path.join(HERE, 'engine'))
 
 H = 'c06_navigation.c'
+M = 'c06_props'
+
+
+def conds(tier):
+    f = 4 if tier == 'thorough' else 1
+    env = {'CH_PRECISE_FLOATS': '1'}
+    enc = ['tskit.trees.Tree.seek_index', 'tskit.trees.Tree.seek', 'tskit.trees.Tree.next', 'tskit.trees.Tree.prev',
+           'tskit.trees.TreeIterator']
+    return [
+        dict(module=M, function='seek_index_like_a_list', timeout=100 * f, env=env, encodes=enc,
+             what='seek_index(i) = list indexing for 1-6 trees and i in [-20,20]; IndexError otherwise, tree untouched'),
+        dict(module=M, function='seek_position_bounds', timeout=100 * f, env=env,
+             what='seek(x) raises ValueError exactly outside [0,L) for every binary64 x (NaN, infinities)'),
+        dict(module=M, function='iterators_visit_every_tree_once', timeout=100 * f, env=env,
+             what='forward / reversed TreeIterator visit each of 1-5 trees once, len(), stay exhausted'),
+        dict(module=M, function='next_prev_return_values', timeout=100 * f, env=env,
+             what='next()/prev() return False exactly on entering the null state, up to 10 steps'),
+    ]
 
 
 def jobs(tier):
@@ -35,19 +59,27 @@ def jobs(tier):
 
 
 BOUNDS = {
-    'quick': 'search kernel: tsk_search_sorted (the position -> tree index step of seek from the null state) on strictly increasing arrays of 1-5 free binary64 values and a free probe; all 28 non-redundant sequences of 2 operations from {first,last,next,prev,seek(x),seek_index(i),clear} followed by copy, x '
+    'quick': 'Python wrappers: 1-6 trees, index in [-20,20], any binary64 position; search kernel: tsk_search_sorted (the position -> tree index step of seek from the null state) on strictly increasing arrays of 1-5 free binary64 values and a free probe; all 28 non-redundant sequences of 2 operations from {first,last,next,prev,seek(x),seek_index(i),clear} followed by copy, x '
              'a solver variable in [0,L), on every valid 3-node 2-edge tree sequence class with one site (edge '
              'coordinates symbolic), and all 343 sequences of 3 operations on one fixed 4-node 4-edge 5-tree sequence '
              '(internal sample, gap, empty last tree, site position and seek positions symbolic); sample lists on, all three nodes samples (so the oldest is an internal sample), one tracked sample; compared field by field with a fresh tree '
              'moved by seek_index and with one moved by first/next',
     'thorough': 'plus all 2401 sequences of 4 operations on the fixed table, sequences of 3 and 4 operations on all 3-node 2-edge classes and 3 operations on 4-node 3-edge tables (time-boxed)',
 }
-OUTSIDE = ['Python negative-index handling in Tree.seek_index', 'histories longer than the bound',
+OUTSIDE = ['TreeSequence.at / at_index / first / last (construct a Tree through the CPython wrapper)', 'histories longer than the bound',
            'node-time profiles other than the first']
-ASSUMPTIONS = ['the fresh reference tree is itself tied to the tables by the C01 check']
+ASSUMPTIONS = ['the fresh reference tree is itself tied to the tables by the C01 check',
+               'Python contracts: the low-level tree is a stand-in with the cursor contract the C half establishes (null = -1, next/prev wrap through null, seek_index/seek only ever receive valid arguments - asserted by the stand-in)']
 MANIFEST = dict(
     text='Bounded exhaustive symbolic execution of every operation sequence up to the bound on the real tree '
          'positioning code, differential against a freshly positioned tree; return codes of next/prev and the '
-         'seek(x) containment are asserted at every step.',
+         'seek(x) containment are asserted at every step.  CrossHair on the real Python wrappers: seek_index has list-index semantics, '
+         'seek rejects exactly the positions outside [0,L), iterators visit every tree once.',
     note='Histories bounded by K; tables bounded; trusts clang IR, engine (native replay of sampled paths), z3.',
-    technique='symbolic execution of LLVM IR + SMT (z3), bounded histories, differential')
+    technique='symbolic execution of LLVM IR + SMT (z3) and of Python (CrossHair), bounded histories, differential')
+
+
+def run(pid, tier, seed, only=None):
+    import mixed
+    return mixed.run_mixed(pid, tier, seed, only, jobs(tier), conds(tier), BOUNDS[tier], OUTSIDE, ASSUMPTIONS,
+                           ['fake low-level tree cursor (index, next/prev/seek contract)'])
